@@ -213,7 +213,7 @@ def run(tier, seed):
     for ti, t in enumerate(tunings):
         opens = opens_of(t)
         for p in range(0, 128):
-            forms = (Note().from_int(p), _spell(p), Note(*_spell(p, True).split("-")[:1] + [p // 12]), _spell(p, True))
+            forms = (Note().from_int(p), _spell(p), Note(_FLAT[p % 12], p // 12), _spell(p, True))
             for mi, mf in enumerate(mfs):
                 note = forms[(p + mi) % 4]
                 exp = [(p - o) if 0 <= p - o <= mf else None for o in opens]
@@ -315,8 +315,12 @@ def run(tier, seed):
     found = 0
     for instr in ivars:
         for desc in dvariants:
-            combos = [(None, None)] + ([(a, b) for a in nss for b in ncs] if not quick
-                                       else [(rnd.choice(nss), rnd.choice(ncs)) for _ in range(3)])
+            if quick:
+                combos = [(None, None)] + [(rnd.choice(nss), rnd.choice(ncs)) for _ in range(3)]
+            elif (len(instr) + len(desc)) % 4 == 0:
+                combos = [(a, b) for a in nss for b in ncs]
+            else:
+                combos = [(None, None)] + [(rnd.choice(nss), rnd.choice(ncs)) for _ in range(8)]
             for (ns, nc) in combos:
                 R.case(G, (instr, desc, ns, nc))
                 ok, t = R.guard(G, C, (instr, desc, ns, nc), lambda: T.get_tuning(instr, desc, ns, nc))
@@ -741,6 +745,22 @@ def run(tier, seed):
                     cls = "tight"
         return exp, bad, cls
 
+    def roomy_width(bars, pre):
+        """a bar width at which every sounding entry gets >= 3 columns and every rest >= 1"""
+        q = 1
+        for b in bars:
+            for (_, d, nc) in b.bar:
+                q = max(q, -(-3 * d // 4) if nc is not None else -(-d // 4))
+        return int(4.5 * (int(q) + 1)) + pre + 4
+
+    def roomy_page(bw):
+        opts = [bw] if bw <= 60 else []
+        if 61 <= 2 * bw <= 120:
+            opts.append(2 * bw + rnd.randint(0, 1))
+        if 3 * bw > 120:
+            opts.append(3 * bw + rnd.randint(0, 2))
+        return rnd.choice(opts)
+
     def compare_bars(G, blocks_bars, exp_bars, cls_bars, blk_of, t, txt, inp):
         """blocks_bars: list of (block, bar index in block) in reading order"""
         opens = opens_of(t)
@@ -775,7 +795,8 @@ def run(tier, seed):
             b = random_bar(t, opens, p_bad=0.35 if bad_bar else 0.0, long_only=rnd.random() < 0.4)
             if len(b.bar) == 0:
                 continue
-            w = rnd.choice([None, 40, 60, 80, rnd.randint(8, 60), rnd.randint(30, 160), rnd.randint(60, 300)])
+            roomy = roomy_width([b], pre) + rnd.randint(0, 60)
+            w = rnd.choice([None, roomy, roomy, roomy, roomy, roomy, roomy, rnd.randint(8, 60), rnd.randint(30, 200)])
             exp, bad, cls = bar_model(b, opens, 40 if w is None else w, pre)
             if cls == "skip":
                 n_skip += 1
@@ -784,19 +805,16 @@ def run(tier, seed):
             collapse = rnd.random() < 0.7
             inp = (tname(t), repr(b), w, collapse)
             R.case(G, (ti, repr(b), w))
-            txt = render(G, t, inp, (lambda: tab.from_Bar(b, tuning=t, collapse=collapse)) if w is None
-                         else (lambda: tab.from_Bar(b, w, t, collapse)), bad is not None)
-            if txt is None and collapse:
+
+            def bar_call():
+                res = tab.from_Bar(b, tuning=t, collapse=collapse) if w is None else tab.from_Bar(b, w, t, collapse)
+                if not collapse and isinstance(res, list) and all(isinstance(x, str) for x in res):
+                    return "\n".join(res)
+                return None if not collapse else res
+
+            txt = render(G, t, inp, bar_call, bad is not None)
+            if txt is None:
                 continue
-            if not collapse:
-                try:
-                    res = tab.from_Bar(b, 40 if w is None else w, t, False)
-                except Exception:  # noqa (already classified above)
-                    continue
-                if not (isinstance(res, list) and all(isinstance(x, str) for x in res)):
-                    R.fail(G, CL, "collapse=False did not give a list of lines: %r" % (res,), inp)
-                    continue
-                txt = "\n".join(res)
             systems = tabreader.read(txt)
             if len(systems) != 1 or len(systems[0]) != 1:
                 R.fail(G, CL, "not a single block of string lines:\n%s" % txt, inp)
@@ -857,7 +875,7 @@ def run(tier, seed):
         return exps, clss, bad, empty
 
     G = "tablature.from_Track"
-    per = 12 if quick else 260
+    per = 12 if quick else 200
     for ti, t in enumerate(plain):
         opens = opens_of(t)
         pre = label_cols(t) + 2
@@ -869,7 +887,9 @@ def run(tier, seed):
                               0.2 if rnd.random() < 0.08 else 0.0, how)
             if not tr.bars:
                 continue
-            page = rnd.choice([None, 80, 60, 61, 120, 121, rnd.randint(20, 60), rnd.randint(61, 120), rnd.randint(121, 260)])
+            roomy = roomy_page(roomy_width(tr.bars, label_cols(tt) + 2) + rnd.randint(0, 30))
+            page = rnd.choice([None, roomy, roomy, roomy, roomy, roomy, roomy, rnd.choice([60, 61, 80, 120, 121]),
+                               rnd.randint(20, 260)])
             pg = 80 if page is None else page
             exps, clss, bad, empty = track_model(tr, oo, bar_width_of(pg), label_cols(tt) + 2)
             if "skip" in clss:
@@ -916,7 +936,7 @@ def run(tier, seed):
     # --- 6e. from_Composition
     G = "tablature.from_Composition"
     words = ["blues", "in", "E", "opus", "12", "no.", "3", "a-b", "x|y", "1-2-3", "for", "two", "guitars", "24", "0"]
-    per = 200 if quick else 5000
+    per = 200 if quick else 4000
     for j in range(per):
         c = Composition()
         ntr = rnd.choice([1, 1, 2, 2, 3])
@@ -940,7 +960,8 @@ def run(tier, seed):
             c.set_author(" ".join(rnd.sample(words, 2)), rnd.choice(["", "a1@b2.c3"]))
         if rnd.random() < 0.5:
             c.description = " ".join(rnd.choice(words) for _ in range(rnd.randint(1, 40)))
-        page = rnd.choice([None, 80, 60, 61, 120, 121, rnd.randint(24, 60), rnd.randint(61, 120), rnd.randint(121, 260)])
+        roomy = roomy_page(max(roomy_width(tr.bars, label_cols(tt) + 2) for tr, tt in zip(c.tracks, tts)) + rnd.randint(0, 30))
+        page = rnd.choice([None, roomy, roomy, roomy, roomy, roomy, roomy, rnd.choice([60, 61, 80, 120, 121]), rnd.randint(24, 260)])
         pg = 80 if page is None else page
         models = [track_model(tr, opens_of(tt), bar_width_of(pg), label_cols(tt) + 2) for tr, tt in zip(c.tracks, tts)]
         if any("skip" in m[1] for m in models):
@@ -1009,6 +1030,6 @@ def run(tier, seed):
             "(1-3 tracks, widths 20..300), each rendered and read back by an independent tab reader; tier %s, seed %d"
             % (len(tunings), len(coursed), len(mfs), 5 if quick else 8, nss, ncs, 40 if quick else 700,
                "rotating over the %d" % len(fam_plain) if quick else "each of the %d" % len(fam_plain),
-               len(widths), len(plain), 25 if quick else 500, 30 if quick else 700, 12 if quick else 260,
-               200 if quick else 5000, tier, seed))
+               len(widths), len(plain), 25 if quick else 500, 30 if quick else 700, 12 if quick else 200,
+               200 if quick else 4000, tier, seed))
     return R.result(rule, exhaustive=False)
